@@ -131,11 +131,8 @@ _world = None
 
 
 def world():
-    global _world
-    if _world is None:
-        from verif.harness import World
-        _world = World(POP)
-    return _world
+    from verif.harness import shared_world
+    return shared_world('c06', POP)
 
 
 def token_types(text):
